@@ -302,45 +302,62 @@ func c16ErrMain(run *verifkit.Run, res *verifkit.Result) {
 			items = append(items, item{cfg, k})
 		}
 	}
+	// the race runs probe the process wide server.finalizeLock with TryLock to
+	// find out whether their own save is inside FinalizeSnapshot: nothing else
+	// may run in this process meanwhile => they are done first, one at a time
 	var next int64 = -1
 	var wg sync.WaitGroup
-	for g := 0; g < runtime.GOMAXPROCS(0); g++ {
-		wg.Add(1)
-		go func() {
-			defer wg.Done()
-			for {
-				i := int(atomic.AddInt64(&next, 1))
-				if i >= len(items) {
-					return
+	workers := runtime.GOMAXPROCS(0)
+	for phase := 0; phase < 2; phase++ {
+		serial := phase == 0
+		atomic.StoreInt64(&next, -1)
+		n := workers
+		if serial {
+			n = 1
+		}
+		for g := 0; g < n; g++ {
+			wg.Add(1)
+			go func() {
+				defer wg.Done()
+				for {
+					i := int(atomic.AddInt64(&next, 1))
+					if i >= len(items) {
+						return
+					}
+					if !run.Mine(uint64(i)) || (items[i].cfg.WL == "race") != serial {
+						continue
+					}
+					if run.Expired() {
+						res.Cap("deadline reached in error mode")
+						return
+					}
+					c16ErrItem(c, items[i].cfg, items[i].k)
 				}
-				if !run.Mine(uint64(i)) {
-					continue
-				}
-				if run.Expired() {
-					res.Cap("deadline reached in error mode")
-					return
-				}
-				it := items[i]
-				er := c16ErrCase(it.cfg, it.k)
-				atomic.AddInt64(&res.Evaluations, 1)
-				fam := it.cfg.family()
-				if !er.Reached {
-					res.Outcome(fam + "|errfs|fault ordinal not reached")
-					res.Cap(fmt.Sprintf("%s: fault ordinal %d was not reached (the run is not deterministic?)", it.cfg.name(), it.k))
-					continue
-				}
-				atomic.AddInt64(&res.DistinctNontrivial, 1)
-				c.add(fam+".errfs.exercised", 1)
-				if er.F != nil {
-					c.report(er.F)
-					continue
-				}
-				res.Outcome(fmt.Sprintf("%s|errfs|%s in %s|%s|restart ok", fam, er.Site, er.Phase, er.Result0()))
-				res.Sample(4, map[string]interface{}{"workload": it.cfg.name(), "fault": it.k, "site": er.Site, "phase": er.Phase, "result": er.Result, "after_restart": er.After})
-			}
-		}()
+			}()
+		}
+		wg.Wait()
 	}
-	wg.Wait()
+}
+
+// c16ErrItem runs one fault case and files its result.
+func c16ErrItem(c *c16Ctx, cfg c16Cfg, k int) {
+	res := c.Res
+	er := c16ErrCase(cfg, k)
+	atomic.AddInt64(&res.Evaluations, 1)
+	fam := cfg.family()
+	if !er.Reached {
+		res.Outcome(fam + "|errfs|fault ordinal not reached")
+		res.Cap(fmt.Sprintf("%s: fault ordinal %d was not reached (the run is not deterministic?)", cfg.name(), k))
+		return
+	}
+	atomic.AddInt64(&res.DistinctNontrivial, 1)
+	c.add(fam+".errfs.exercised", 1)
+	if er.F != nil {
+		c.report(er.F)
+		return
+	}
+	res.Outcome(fmt.Sprintf("%s|errfs|%s in %s|%s|restart ok", fam, er.Site, er.Phase, er.Result0()))
+	res.Sample(4, map[string]interface{}{"workload": cfg.name(), "fault": k, "site": er.Site, "phase": er.Phase, "result": er.Result, "after_restart": er.After})
 }
 
 func c16ReplayErr(c *c16Ctx, rp c16Replay) {
